@@ -67,14 +67,14 @@ let base_run = int_of_z first_runid
 let parse_step (toks : string list) : hstep =
   match toks with
   | ["W"; name; data] -> SWrite (bytes_of_string name, List.map (fun x -> n_of_int (int_of_string x)) (split_list data))
-  | ["D"; name; deps; ifc; always; stamp; out; payload; cat; ex] ->
+  | "D" :: name :: deps :: ifc :: always :: stamp :: out :: payload :: cat :: ex :: tolr when List.length tolr <= 1 ->
       let om = match out with "S" -> OStdout | "3" -> ODollar3 | "N" -> ONeither | "B" -> OBoth | "D" -> ODirect | _ -> failwith "out" in
       SWriteDo (bytes_of_string name,
         { s_deps = List.map bytes_of_string (split_list deps);
           s_ifcreate = List.map bytes_of_string (split_list ifc);
           s_always = (always = "1"); s_stamp = (stamp = "1"); s_out = om;
           s_payload = n_of_int (int_of_string payload); s_cat = (cat = "1");
-          s_exit = z_of_int (int_of_string ex) })
+          s_exit = z_of_int (int_of_string ex); s_tol = (tolr = ["1"]) })
   | ["R"; name] -> SRemove (bytes_of_string name)
   | ["H"; names] -> SHint (List.map bytes_of_string (split_list names))
   | ["C"; c; k; ts] ->
